@@ -158,11 +158,38 @@ impl Prop for Pair {
             let r = catch(|| {
                 let a = mk_dt_off_any(c.a.i(), c.oa);
                 let b = mk_dt_off_any(c.b.i(), c.ob);
-                (a.months_since(&b), a.years_since(&b), b.months_since(&a), b.years_since(&a))
+                // the property's own definition, with the library's add_months and ordering:
+                // b.add_months(n) <= a < b.add_months(n + 1)
+                let (bu, bl) = (tl::fields(c.b.i()), tl::fields(c.b.i() + c.ob as i128 * tl::NS));
+                let bracket = if c.a.i() >= c.b.i() && bu.dom <= 28 && bl.dom <= 28 && c.a.day < cal::MAX_DAY - 70 {
+                    let n = a.months_since(&b);
+                    if n >= 0 {
+                        let (lo, hi) = (b.add_months(n as u32), b.add_months(n as u32 + 1));
+                        Some((n, lo <= a, a < hi, rd_dt(&lo), rd_dt(&hi)))
+                    } else {
+                        None
+                    }
+                } else {
+                    None
+                };
+                (a.months_since(&b), a.years_since(&b), b.months_since(&a), b.years_since(&a), bracket)
             });
             match r {
                 Err(p) => return fail("c07.panic", "months_since / years_since with offsets return", p.short()),
-                Ok((m, y, mr, yr)) => {
+                Ok((m, y, mr, yr, bracket)) => {
+                    if let Some((n, lo_ok, hi_ok, lo, hi)) = bracket {
+                        cx.nt("bracket_with_the_library's_own_add_months");
+                        if !lo_ok || !hi_ok {
+                            return fail(
+                                "c07.bracket_with_add_months",
+                                format!(
+                                    "n = a.months_since(b) = {} satisfies b.add_months(n) <= a < b.add_months(n+1) for a = {} [{}], b = {} [{}]",
+                                    n, fmt_instant(c.a.i()), c.oa, fmt_instant(c.b.i()), c.ob
+                                ),
+                                format!("b.add_months(n) = {}, b.add_months(n+1) = {}", fmt_instant(lo), fmt_instant(hi)),
+                            );
+                        }
+                    }
                     if (m, y, mr, yr) != (m0, y0, -m0, -y0) {
                         return fail(
                             "c07.offset_changes_difference",
